@@ -33,6 +33,24 @@ CHECKS = {
     "C09": dict(cat="model_checking", tech="TLC exhaustive rational lattice of the subspace step; every lattice input replayed into subspace_minimization",
                 text="As C08 for the box-truncated Newton point: design claims (active fixed, reduced Newton system, alpha* maximal, model non-increase, descent) on every lattice input, and replay into the real routine with exact comparison.",
                 ref="3.1 A, 4.5, 7/C09", note=LATTICE_NOTE),
+    "C10": dict(cat="model_checking", tech="TLC model checking of Memory.tla over exact integer histories + replay of every reachable state into update_lbfgs_matrices + TLC trace validation of float histories",
+                text="Memory.tla is exhausted over all histories (length <= 4/5) of candidate/reset operations on an integer lattice with exact rational matrix algebra (compact == BFGS recursion, SPD, secant, curvature, FIFO, bounded); every state is replayed into the real routines; random float histories of 40 updates and the updates intercepted in real runs are validated by TLC on ids with curvature / dense-reconstruction facts.",
+                ref="4.4, 7/C10", note=LATTICE_NOTE + " Exact matrix algebra only for memories with small curvature numbers (32-bit rationals); SPD/secant/compact==dense on floats are harness-computed facts."),
+    "C11": dict(cat="model_checking", tech="TLC model checking of LineSearch.tla + TLC trace validation of stand-alone line_search calls and of full runs",
+                text="LineSearch.tla (dcsrch as a black box) is exhausted over all outcome sequences x budgets; thousands of stand-alone calls of line_search on oscillating non-convex objectives and the line searches of full runs are validated by TLC (trial points in box, evaluations <= cap, returned step is a trial, strictly lower, in (0, max step]).",
+                ref="4.2, 7/C11", note=DRIVER_NOTE),
+    "C15": dict(cat="model_checking", tech="TLC model checking of ScalarFn.tla + TLC trace validation of every call history up to the bound on the real ScalarFunction",
+                text="ScalarFn.tla (memo cell, counters, scale, caller mutation; callable and FD modes) is exhausted; every history up to length 4 (quick) / 6 (thorough) over {fun, grad, fun_and_grad} x 3 points incl. a near-duplicate point, scale changes and caller overwrites is executed on the real wrapper in all five gradient modes and validated by TLC.",
+                ref="4.3, 7/C15", note="Trusted: TLC; the harness-side log of user calls and its bit-exact comparison with fresh evaluations; the adopted reading of 'not re-evaluated' (single memo cell)."),
+    "C17": dict(cat="model_checking", tech="TLC validation of merged evaluation traces (scaler run vs explicitly scaled run) against the Equiv monitor, exact mode + DriverTrace clauses",
+                text="Relation between two complete runs: every evaluation point, x, fun, jac, counters, pairs and message bit-identical; scaler called once with (x0, unscaled g0, bounds); target on the unscaled value. Decided per pair of real runs by TLC on the merged trace; s in [1e-3, 1e3] and the packaged scaler.",
+                ref="4.9, 7/C17", note=DRIVER_NOTE),
+    "C18": dict(cat="model_checking", tech="TLC model checking of pair provenance in Driver/Memory + TLC trace validation of bit-exact provenance facts of real runs + lattice replay of the inverse-diagonal utility",
+                text="Driver: pairs = consecutive retained iterates, count <= maxcor, chronological; Memory.tla: exact two-loop inverse diagonal replayed into LbfgsInvHessProduct/extract_hess_inv_diag; real runs (incl. callbacks, restart chains): each sk/yk row matched bit-exactly to differences of visited iterates / user gradients, validated by TLC. For large random pair sets diag == todense().diagonal() is a logged relation.",
+                ref="4.4, 7/C18", note=DRIVER_NOTE + " Known finding KF-C18-inherited-pairs (pairs inherited through a restart are exact only up to rounding)."),
+    "C20": dict(cat="fault_enumeration", tech="TLC model checking of Raise/Propagate in Driver + enumeration of fault injection points replayed on the real solver, traces validated by TLC",
+                text="Design: after Raise only Propagate. Every call index (capped) of every callable kind of the explored runs x several exception types is injected; the trace must show the same exception object reaching the caller; the identical fault-free call afterwards equals the fresh-process result bit-for-bit; module-level mutable objects unchanged.",
+                ref="4.1, 4.8, 7/C20", note=DRIVER_NOTE),
 }
 
 
